@@ -1247,23 +1247,8 @@ func (n *node) ApplicationStart(name gen.Atom, options gen.ApplicationOptions) e
 	}
 	app := v.(*application)
 
-	// check dependency on the other applications
-	for _, dep := range app.spec.Depends.Applications {
-		if err := n.ApplicationStart(dep, options); err != nil {
-			if err == gen.ErrApplicationUnknown {
-				n.log.Error("unable to start %s: unknown dependent application %s", name, dep)
-				return gen.ErrApplicationDepends
-			}
-
-			if err != gen.ErrApplicationRunning {
-				n.log.Error(
-					"unable to start %s: start dependent application %s failed: %s",
-					dep,
-					err,
-				)
-				return gen.ErrApplicationDepends
-			}
-		}
+	if err := n.applicationStartDepends(name, app, options); err != nil {
+		return err
 	}
 
 	opts := gen.ApplicationOptionsExtra{
@@ -1275,12 +1260,38 @@ func (n *node) ApplicationStart(name gen.Atom, options gen.ApplicationOptions) e
 	return app.start(app.spec.Mode, opts)
 }
 
+// applicationStartDepends starts the applications the given one depends on
+func (n *node) applicationStartDepends(name gen.Atom, app *application, options gen.ApplicationOptions) error {
+	for _, dep := range app.spec.Depends.Applications {
+		if err := n.ApplicationStart(dep, options); err != nil {
+			if err == gen.ErrApplicationUnknown {
+				n.log.Error("unable to start %s: unknown dependent application %s", name, dep)
+				return gen.ErrApplicationDepends
+			}
+
+			if err != gen.ErrApplicationRunning {
+				n.log.Error(
+					"unable to start %s: start dependent application %s failed: %s",
+					name,
+					dep,
+					err,
+				)
+				return gen.ErrApplicationDepends
+			}
+		}
+	}
+	return nil
+}
+
 func (n *node) ApplicationStartPermanent(name gen.Atom, options gen.ApplicationOptions) error {
 	v, exist := n.applications.Load(name)
 	if exist == false {
 		return gen.ErrApplicationUnknown
 	}
 	app := v.(*application)
+	if err := n.applicationStartDepends(name, app, options); err != nil {
+		return err
+	}
 	opts := gen.ApplicationOptionsExtra{
 		ApplicationOptions: options,
 		CorePID:            n.corePID,
@@ -1296,6 +1307,9 @@ func (n *node) ApplicationStartTransient(name gen.Atom, options gen.ApplicationO
 		return gen.ErrApplicationUnknown
 	}
 	app := v.(*application)
+	if err := n.applicationStartDepends(name, app, options); err != nil {
+		return err
+	}
 	opts := gen.ApplicationOptionsExtra{
 		ApplicationOptions: options,
 		CorePID:            n.corePID,
@@ -1311,6 +1325,9 @@ func (n *node) ApplicationStartTemporary(name gen.Atom, options gen.ApplicationO
 		return gen.ErrApplicationUnknown
 	}
 	app := v.(*application)
+	if err := n.applicationStartDepends(name, app, options); err != nil {
+		return err
+	}
 	opts := gen.ApplicationOptionsExtra{
 		ApplicationOptions: options,
 		CorePID:            n.corePID,
